@@ -309,32 +309,34 @@ func TestVerif_C10(t *testing.T) {
 		o.MaxRepos = 3
 		o.MaxDocs = 10
 		c := c10Case{Corpus: kit.GenCorpus(g, o), Chunk: g.Bool(50, "chunk")}
-		c.A = genBuildConfig(g, &c.Corpus, "a")
-		c.B = genBuildConfig(g, &c.Corpus, "b")
 		// content-affecting limits are the same for both builds; small values
 		// make some documents skipped (too large / too many trigrams)
 		tm := kit.Pick(g, []int{20000, 20000, 25, 60}, "trigrammax")
 		sm := kit.Pick(g, []int{2 << 20, 2 << 20, 120}, "sizemax")
+		// Skipped documents of one kind all carry the same marker text (also
+		// the 1-2 byte documents every build rejects as too small): of
+		// same-named documents that are skipped for the same reason only the
+		// first is kept, so that (repository, name, checksum) still identifies
+		// a document.
+		for i := range c.Corpus.Repos {
+			seen := map[string]bool{}
+			var docs []kit.Doc
+			for _, d := range c.Corpus.Repos[i].Docs {
+				if why := kit.ModelSkip(d.Content, sm, tm, false); why != 0 {
+					k := fmt.Sprintf("%s\x00%d", d.Name, why)
+					if seen[k] {
+						continue
+					}
+					seen[k] = true
+				}
+				docs = append(docs, d)
+			}
+			c.Corpus.Repos[i].Docs = docs
+		}
+		c.A = genBuildConfig(g, &c.Corpus, "a")
+		c.B = genBuildConfig(g, &c.Corpus, "b")
 		c.A.Cfg.TrigramMax, c.B.Cfg.TrigramMax = tm, tm
 		c.A.Cfg.SizeMax, c.B.Cfg.SizeMax = sm, sm
-		if tm < 20000 || sm < 2<<20 {
-			// skipped documents all carry the same marker text: keep file names
-			// unique per repository so that (repository, name, checksum) still
-			// identifies a document
-			for i := range c.Corpus.Repos {
-				seen := map[string]bool{}
-				var docs []kit.Doc
-				for _, d := range c.Corpus.Repos[i].Docs {
-					if !seen[d.Name] {
-						seen[d.Name] = true
-						docs = append(docs, d)
-					}
-				}
-				c.Corpus.Repos[i].Docs = docs
-			}
-			c.A = genBuildConfigKeep(g, &c.Corpus, c.A, "a2")
-			c.B = genBuildConfigKeep(g, &c.Corpus, c.B, "b2")
-		}
 		n := g.Int(5, 8, "nq")
 		for i := 0; i < n; i++ {
 			q, _ := kit.GenQuery(g, &c.Corpus, kit.DefaultQuery, 0)
